@@ -28,8 +28,8 @@ RULE = ("cases: (rows, V placement, family, scaling); executions: units x units 
         "outside and on nodes")
 ASSUMPTIONS = ["tables are increasing in wavelength and cover 0.55 micron (the property's precondition)",
                "opacities from finite families (constant, power law, non-monotonic, seed-derived positive)"]
-OPS = ['scale-chi', 'chi-unit', 'wav-unit', 'new-chi', 'pickle', 'new-table']
-REQUIRED_CLASSES = ['table-native-in-other-unit', 'history-depth-3', 'history-new-chi-after-query', 'V-between', 'V-on-node', 'V-first', 'V-last', 'outside-zero', 'exact-at-V', 'pickle', 'table', 'file',
+OPS = ['scale-chi', 'chi-unit', 'wav-unit', 'new-chi', 'pickle', 'new-table', 'table-roundtrip-discarded']
+REQUIRED_CLASSES = ['query-unsorted-and-2d', 'table-native-in-other-unit', 'history-depth-3', 'history-new-chi-after-query', 'V-between', 'V-on-node', 'V-first', 'V-last', 'outside-zero', 'exact-at-V', 'pickle', 'table', 'file',
                     'unit-change', 'scaled', 'non-monotonic']
 
 
@@ -111,6 +111,9 @@ def _history(ctx, case, rec):
             return e, (wt, (new * e.chi.unit).to(u.cm ** 2 / u.g).value)
         if op == 'pickle':
             return pickle.loads(pickle.dumps(e, 2)), model
+        if op == 'table-roundtrip-discarded':
+            Extinction.from_table(e.to_table())        # the copy is thrown away: the original must be untouched
+            return e, model
         if op == 'new-table':
             e.chi = None
             e.wav = wt1 * u.micron
@@ -222,6 +225,26 @@ def run_case(ctx, case, rec, d):
                     rec.violation('get_av|value|%s' % ('outside' if exp[i] == 0 else 'V' if q[i] == 0.55 else 'inside'), dict(sub, i=i),
                                   {'query_micron': q[i], 'got': r[i], 'expected': exp[i], 'table_wav': wt[:6], 'table_chi': (ct * case['sc'])[:6]})
                     break
+            # the same law queried with the wavelengths in another order (first and last inside the table, outside points in
+            # between) and as a 2-d array: point-wise the same answers
+            if fname == 'fresh':
+                perm_q = np.r_[len(q) - 1, np.arange(0, len(q) - 1)]            # 0.55 first ... ; last element is 'above the table'
+                q2 = np.r_[q[perm_q], wt[len(wt) // 2]]
+                e2 = np.r_[exp[perm_q], extref.pattern(list(wt), list(ct), [wt[len(wt) // 2]])[0]]
+                try:
+                    r2 = np.asarray(obj.get_av((q2 * u.micron).to(qu)), dtype=float)
+                    r3 = np.asarray(obj.get_av((q2[:2 * (len(q2) // 2)].reshape(2, -1) * u.micron).to(qu)), dtype=float).ravel()
+                except Exception as ex:
+                    rec.violation('get_av|exception|query-shape', sub, {'type': type(ex).__name__, 'msg': str(ex)[:200]})
+                    continue
+                rec.ev(2)
+                rec.cls('query-unsorted-and-2d')
+                edge = np.array([abs(x - wt[0]) < 1e-12 * wt[0] or abs(x - wt[-1]) < 1e-12 * wt[-1] for x in q2])
+                okq = np.all((np.abs(r2 - e2) <= 1e-9 * np.maximum(1, np.abs(e2))) | (edge & (r2 == 0) & (not same_unit)))
+                n3 = len(r3)
+                okq = okq and np.all((np.abs(r3 - e2[:n3]) <= 1e-9 * np.maximum(1, np.abs(e2[:n3]))) | (edge[:n3] & (r3 == 0) & (not same_unit)))
+                if not okq:
+                    rec.violation('get_av|value|query-order-or-shape', sub, {'query_micron': q2[:6], 'got': r2[:6], 'expected': e2[:6]})
             if first:
                 rec.sample({'table_wav_micron': wt[:5], 'table_chi': ct[:5], 'queries_micron': q[:8], 'expected': exp[:8], 'units': sub})
                 first = False
